@@ -49,6 +49,7 @@ def _events(args):
         ev = dict(base, kind="build", used=sorted(set(used) | {v}), status="ok", resp=dict(gen.EMPTY), resp_expected=True, tag="subset")
         if st != "ok":
             ev["status"] = type(dm).__name__
+            ev["rhs_alone_ok"] = design.build("y ~ " + rhs_text, w.df, extra_namespace=dict(w.namespace))[0] == "ok"
         else:
             ev["resp"] = _resp_part(dm, [[[v, code]]])
             if dm.response.kind != "categoric":
@@ -91,6 +92,7 @@ def _events(args):
             ev = dict(base, kind="build", frame={"n": n, "cols": cols}, used=sorted(set(used) | {"s"} | ({"nn"} if not trials_const else set())), status="ok", resp=dict(gen.EMPTY), resp_expected=True, tag="prop")
             if st != "ok":
                 ev["status"] = type(dm).__name__
+                ev["rhs_alone_ok"] = design.build("y ~ " + rhs_text, df)[0] == "ok"
             else:
                 ev["resp"] = _resp_part(dm, [[["s", 0]], [["cst" if trials_const else "nn", 0]]])
                 if dm.response.kind != "proportion":
@@ -136,7 +138,10 @@ def run(rep, n, seed):
             if ev.get("status", "ok").startswith("projection:"):
                 continue
             if ev["kind"] == "build" and ev["status"] != "ok":
-                # only the response forms themselves are judged here; a right-hand side that fails is C03's
+                # only the response forms themselves are judged here; a right-hand side that fails is C03's -
+                # but a valid prop / subset form must not be what raises
+                if ev.get("tag") in ("prop", "subset") and ev.get("rhs_alone_ok"):
+                    rep.violation({"clause": "valid_response_form_raises", "tag": ev["tag"], "exc": ev["status"], "site": "response evaluation"}, {"formula": text, "status": ev["status"]})
                 rep.count("builds_that_raised")
                 continue
             events.append(ev)
